@@ -114,7 +114,9 @@ CowInsert(T0, path) ==
   IN CASE kind = "exact" ->
             IF M.r # <<>> THEN CRes("exist", T)
             ELSE IF Is("editMatchedInPlace") THEN CRes("ok", [T EXCEPT !.h.nd[s.m].r = path])
-            ELSE LET n == NodeFromRef(h, M.k, path, M.s) IN CRes("ok", [T EXCEPT !.h = UpdateEdge(n.h, s.p, n.id)])
+            ELSE LET n == NodeFromRef(h, M.k, path, M.s) IN
+                 CRes("ok", [T EXCEPT !.h = UpdateEdge(n.h, s.p, n.id),
+                                      !.wr = IF Is("cacheInsertedNode") /\ T.cache THEN @ \cup {n.id} ELSE @])
        [] kind = "keyEndMidEdge" ->
             LET child == NodeFromRef(h, Rest(M.k, s.cmn + 1), M.r, M.s)
                 parent == NodeWithKids(child.h, Take(M.k, s.cmn), path, <<child.id>>)
